@@ -1,12 +1,93 @@
-"""C11 - removing a child restores the behaviour the element had without it: after every successful removal the
-element's fingerprint is compared with that of a fresh twin holding the remaining children."""
-from mc import structcheck, obscheck  # noqa: F401
+"""C11 - removing a child restores the behaviour the element had without it.
+
+Part 1 (implementation-driven): after every successful removal met in the add/remove exploration the element's
+fingerprint is compared with that of a fresh twin holding the remaining children.
+Part 2 (model-driven, reaches long documents): every word of the transition-cover and pumped-cycle families of each
+content-model DFA (the C02 families; thorough adds the 2-switch cover) that the element accepts in document order,
+x every single position removed (remove() and, for the first child of its name, xml_x = None): the result must equal
+the twin built from the remaining children - same serialisation / verdict, same views, and the same outcome of
+adding a child of the removed name again."""
+import collections
+
+from mc import core, impl, structcheck, obscheck  # noqa: F401
+from mc.impl import build, nfa
+from mc.checks import C02
 
 PROFILES = [('addrem-noS', 6000, 40000)]
+CHUNK = 40
+
+
+def fp(T, hist, probe):
+    st = build(T, hist)
+    if not all(o.ok for o in st.outcomes):
+        return None
+    base = impl.phi0(st)
+    st2 = build(T, list(hist) + [('A', probe)])
+    return (base, st2.outcomes[-1].brief(), impl.phi0(st2))
+
+
+def work_words(arg):
+    T, words = arg
+    vio = []
+    oc = collections.Counter()
+    for w in words:
+        w = tuple(w)
+        adds = [('A', a) for a in w]
+        st = build(T, adds)
+        if not all(o.ok for o in st.outcomes) or [c.name for c in st.el.get_children(ordered=True)] != list(w):
+            oc['word_not_kept_by_matcher'] += 1   # C02's subject
+            continue
+        for i in range(len(w)):
+            rest = adds[:i] + adds[i + 1:]
+            twin = fp(T, rest, w[i])
+            if twin is None:
+                oc['twin_not_buildable'] += 1
+                continue
+            modes = [('R', i)]
+            if w.index(w[i]) == i:
+                modes.append(('Xs', w[i], 'none'))
+            for op in modes:
+                oc['removals_judged'] += 1
+                got = fp_after(T, adds, op, w[i])
+                if got != twin:
+                    vio.append({'scope': T, 'kind': 'removal-not-restoring',
+                                'key': [list(w), list(op), obscheck.diff_path(twin, got) if got else 'removal-raises'],
+                                'trace': [list(x) for x in adds] + [list(op)],
+                                'difference': obscheck.first_diff(twin, got) if got else None})
+    return vio, dict(oc)
+
+
+def fp_after(T, adds, op, probe):
+    st = build(T, list(adds) + [op])
+    if not st.outcomes[-1].ok:
+        return None
+    base = impl.phi0(st)
+    st2 = build(T, list(adds) + [op, ('A', probe)])
+    return (base, st2.outcomes[-1].brief(), impl.phi0(st2))
 
 
 def run(tier):
-    return structcheck.run_struct('C11', tier, 'C11', PROFILES,
+    def extra(run_, tot, ostats, guards, samples):
+        tasks = []
+        nwords = 0
+        for T in impl.TYPES:
+            fam, L, ns, nt = C02.word_families(T, 'quick')
+            fams = ('tcover', 'pump') if tier == 'quick' else ('tcover', 'pump', '2switch')
+            if tier == 'thorough':
+                fam, L, ns, nt = C02.word_families(T, 'thorough')
+            ws = [list(w) for w, f in fam.items() if f in fams and 0 < len(w) <= 9]
+            nwords += len(ws)
+            for i in range(0, len(ws), CHUNK):
+                tasks.append((T, ws[i:i + CHUNK]))
+        for vio, oc in core.pmap(work_words, tasks):
+            run_.add_violations(vio)
+            for k, v in oc.items():
+                ostats['words:' + k] += v
+        tot['transitions'] += ostats['words:removals_judged']
+        samples.append({'type': 'credit', 'word': ['credit-words', 'link', 'link', 'credit-words'], 'removed_position': 1})
+        if ostats['words:removals_judged'] == 0:
+            guards.append('no removal judged in part 2')
+    return structcheck.run_struct('C11', tier, 'C11', PROFILES, extra=extra,
                                   min_guard={'removals_judged': 'no removal judged'})
 
 
